@@ -39,3 +39,14 @@ Theorem C14_legacy_stale_descendants_refuted :
   run_ops false {| st_forest := f; st_store := [] |} ops = run_fresh f ops.
 Proof. exact legacy_stale_descendants. Qed.
 Print Assumptions C14_legacy_stale_descendants_refuted.
+
+(* The label map is derived state as well.  In the model it is a function of the forest
+   (label_map n f = map (owner f) ...), so after ANY history it names existing structures only:
+   a label is -1 or the identifier of a structure of the current forest that owns the pixel.
+   (The implementation updates its label map in place; the prune tie of C07 compares it with
+   this function after every call, and the C14 oracle checks the statement on the live
+   dendrogram after every step - a stale label of a removed structure is a violation.) *)
+Theorem C14_label_map_names_existing_structures :
+  forall f p, owner f p = -1 \/ exists t, In t (fnodes f) /\ owner f p = tid t /\ In p (opix t).
+Proof. exact owner_names_existing. Qed.
+Print Assumptions C14_label_map_names_existing_structures.
